@@ -506,6 +506,18 @@ func mutants(s string, f func(kind, m string)) {
 			f("insert", string(m))
 		}
 	}
+	// one character replaced by a multi-byte UTF-8 character whose code point has the
+	// original character in its low 8 bits (a decoder that iterates runes and truncates
+	// them to a byte would read the original character), plus two look-alikes
+	for i := range b {
+		for _, r := range []rune{0x100 + rune(b[i]), 0x200 + rune(b[i]), 0x2100 + rune(b[i]), 0xff00 + rune(b[i]) - 0x20, 0x10000 + rune(b[i])} {
+			if r < 0x80 {
+				continue
+			}
+			m := append(append(append([]byte{}, b[:i]...), []byte(string(r))...), b[i+1:]...)
+			f("subst-utf8", string(m))
+		}
+	}
 	for i := range b {
 		f("delete", string(append(append([]byte{}, b[:i]...), b[i+1:]...)))
 	}
